@@ -34,49 +34,50 @@ type Violation struct {
 }
 
 type result struct {
-	Property    string         `json:"property"`
-	Test        string         `json:"test"`
-	Tier        string         `json:"tier"`
-	Seed        int64          `json:"seed"`
-	Evaluations int64          `json:"evaluations"`
-	Distinct    int64          `json:"distinct_nontrivial"`
-	DistinctCap bool           `json:"distinct_capped,omitempty"`
-	States      int64          `json:"states,omitempty"`
-	Transitions int64          `json:"transitions,omitempty"`
-	Traces      int64          `json:"traces_validated_against_impl,omitempty"`
-	Rule        string         `json:"rule"`
-	Samples     []any          `json:"samples"`
-	Exhaustive  bool           `json:"exhaustive"`
-	Bounds      map[string]any `json:"bounds,omitempty"`
+	Property    string           `json:"property"`
+	Test        string           `json:"test"`
+	Tier        string           `json:"tier"`
+	Seed        int64            `json:"seed"`
+	Evaluations int64            `json:"evaluations"`
+	Distinct    int64            `json:"distinct_nontrivial"`
+	DistinctCap bool             `json:"distinct_capped,omitempty"`
+	States      int64            `json:"states,omitempty"`
+	Transitions int64            `json:"transitions,omitempty"`
+	Traces      int64            `json:"traces_validated_against_impl,omitempty"`
+	Rule        string           `json:"rule"`
+	Samples     []any            `json:"samples"`
+	Exhaustive  bool             `json:"exhaustive"`
+	Bounds      map[string]any   `json:"bounds,omitempty"`
 	Outcomes    map[string]int64 `json:"outcomes,omitempty"`
-	Assumptions []string       `json:"assumptions,omitempty"`
-	Violations  []Violation    `json:"violations"`
-	NViolations int64          `json:"n_violations"`
-	WallS       float64        `json:"wall_s"`
-	Replayed    bool           `json:"replayed,omitempty"`
-	ReplayHit   int64          `json:"replay_hit,omitempty"`
+	Assumptions []string         `json:"assumptions,omitempty"`
+	Violations  []Violation      `json:"violations"`
+	HarnessErrs []string         `json:"harness_errors,omitempty"`
+	NViolations int64            `json:"n_violations"`
+	WallS       float64          `json:"wall_s"`
+	Replayed    bool             `json:"replayed,omitempty"`
+	ReplayHit   int64            `json:"replay_hit,omitempty"`
 }
 
 // R is the per-harness run context. All methods are safe for concurrent use.
 type R struct {
-	T        *testing.T
-	res      result
-	mu       sync.Mutex
-	start    time.Time
-	deadline time.Time
-	expired  atomic.Bool
-	evals    atomic.Int64
-	states   atomic.Int64
-	trans    atomic.Int64
-	traces   atomic.Int64
-	nviol    atomic.Int64
-	dmu      [64]sync.Mutex
-	dset     [64]map[uint64]struct{}
-	dcount   atomic.Int64
-	maxSamples int
+	T           *testing.T
+	res         result
+	mu          sync.Mutex
+	start       time.Time
+	deadline    time.Time
+	expired     atomic.Bool
+	evals       atomic.Int64
+	states      atomic.Int64
+	trans       atomic.Int64
+	traces      atomic.Int64
+	nviol       atomic.Int64
+	dmu         [64]sync.Mutex
+	dset        [64]map[uint64]struct{}
+	dcount      atomic.Int64
+	maxSamples  int
 	sampleEvery int64
-	replay   []byte // canonical JSON of the case to replay, nil otherwise
-	replayHit atomic.Int64
+	replay      []byte // canonical JSON of the case to replay, nil otherwise
+	replayHit   atomic.Int64
 }
 
 const maxDistinct = 8_000_000
@@ -244,7 +245,11 @@ func (r *R) NotExhaustive(why string) {
 func (r *R) Rule(s string) { r.mu.Lock(); r.res.Rule = s; r.mu.Unlock() }
 
 // Assume records an assumption / trusted-base statement.
-func (r *R) Assume(s string) { r.mu.Lock(); r.res.Assumptions = append(r.res.Assumptions, s); r.mu.Unlock() }
+func (r *R) Assume(s string) {
+	r.mu.Lock()
+	r.res.Assumptions = append(r.res.Assumptions, s)
+	r.mu.Unlock()
+}
 
 // Bound records a completed bound (depth, preemptions, sizes...).
 func (r *R) Bound(k string, v any) { r.mu.Lock(); r.res.Bounds[k] = v; r.mu.Unlock() }
@@ -324,6 +329,23 @@ func (r *R) Violation(key, desc string, replay any) {
 		r.res.Violations = append(r.res.Violations, Violation{Key: key, Desc: desc, Replay: replay})
 	}
 }
+
+// HarnessError records an infrastructure problem (replay divergence, watchdog,
+// non-reproducible failure). It is never a verdict: run.py exits 2.
+func (r *R) HarnessError(msg string) {
+	r.expired.Store(true)
+	r.mu.Lock()
+	if len(r.res.HarnessErrs) < 10 {
+		r.res.HarnessErrs = append(r.res.HarnessErrs, msg)
+	}
+	r.mu.Unlock()
+}
+
+// ReplayDescriptor returns the canonical JSON of the case being replayed (nil if not replaying).
+func (r *R) ReplayDescriptor() []byte { return r.replay }
+
+// ReplayHit tells the driver that the replay descriptor was recognised and executed.
+func (r *R) ReplayHit() { r.replayHit.Add(1) }
 
 // Violations returns the number of violations so far.
 func (r *R) Violations() int64 { return r.nviol.Load() }
@@ -417,13 +439,13 @@ type Sys interface {
 
 // Config of an exploration.
 type Config struct {
-	Name     string
-	Ops      []string   // names of the alphabet, simplest first
-	Depth    int        // maximal length of operation sequences
-	New      func() Sys // fresh system (initial state); live objects cannot be cloned, so states are re-built by replay
-	MaxStates int64     // cap on distinct states (0 = none); hitting it => exhaustive:false
-	NoDedup  bool       // plain depth-bounded enumeration even if Key is non-empty
-	Close    func(Sys)  // optional cleanup
+	Name      string
+	Ops       []string   // names of the alphabet, simplest first
+	Depth     int        // maximal length of operation sequences
+	New       func() Sys // fresh system (initial state); live objects cannot be cloned, so states are re-built by replay
+	MaxStates int64      // cap on distinct states (0 = none); hitting it => exhaustive:false
+	NoDedup   bool       // plain depth-bounded enumeration even if Key is non-empty
+	Close     func(Sys)  // optional cleanup
 }
 
 // Explore runs breadth-first search over operation sequences. A state is the
